@@ -178,13 +178,13 @@ func c01Body(e *fw.Env, r *fw.Result) func(c *choice.Ctx) {
 			cs.Q = []int{0, 75, 100}[c.PickFree(3, "q")]
 			cs.Exact = c.PickFree(2, "exact") == 1
 		case 4: // region pictures on medium sizes: several prefix-code groups, tile grids of every shape
-			ms := [][2]int{{40, 48}, {56, 48}, {88, 48}, {48, 40}, {72, 24}, {33, 65}}
+			ms := [][2]int{{40, 48}, {56, 48}, {88, 48}, {48, 40}, {72, 24}, {33, 65}, {16, 24}, {16, 48}, {24, 16}, {48, 16}, {64, 192}}
 			if !quick {
 				ms = append(ms, [2]int{200, 112}, [2]int{136, 72}, [2]int{64, 64})
 			}
 			s := ms[c.PickFree(len(ms), "size")]
 			cs.W, cs.H = s[0], s[1]
-			cs.Content = []string{"regionsV", "regionsH", "regions4"}[c.PickFree(3, "content")]
+			cs.Content = []string{"regionsV", "regionsH", "regions4", "bandsH", "bandsV"}[c.PickFree(5, "content")]
 			cs.Alpha = []string{"opaque", "binary"}[c.PickFree(2, "alpha")]
 			cs.Q = []int{25, 75, 100}[c.PickFree(3, "q")]
 			cs.M = c.PickFree(7, "method")
